@@ -84,6 +84,15 @@ func randAlnum(rng *rand.Rand, n int) string {
 	return string(b)
 }
 
+// plainAlnum: n characters none of which the JSON encoder escapes, so that the encoded length is n+2
+func plainAlnum(rng *rand.Rand, n int) string {
+	b := make([]byte, n)
+	for i := range b {
+		b[i] = alnum[rng.Intn(len(alnum))]
+	}
+	return string(b)
+}
+
 // genKey returns a Go key of the type and its abstract image (int, or byte values).
 func genKey(goT string, rng *rand.Rand, bf uint) (interface{}, interface{}) {
 	iv := func() int64 {
@@ -121,6 +130,9 @@ func genKey(goT string, rng *rand.Rand, bf uint) (interface{}, interface{}) {
 		return uint64(v), v
 	case "string":
 		s := randAlnum(rng, rng.Intn(13)) // the empty key too
+		if rng.Intn(10) == 0 {
+			s = plainAlnum(rng, 124+rng.Intn(8)) // encoded bodies of 126..133 bytes: either side of the one-byte length field's limit
+		}
 		return s, toInts([]byte(s))
 	default:
 		b := make([]byte, rng.Intn(11))
@@ -137,6 +149,9 @@ func genVal(vt string, rng *rand.Rand) interface{} {
 		v := rng.Intn(1<<20) - 1000
 		return v
 	case "string":
+		if rng.Intn(8) == 0 {
+			return plainAlnum(rng, 124+rng.Intn(8))
+		}
 		return randAlnum(rng, rng.Intn(8))
 	default:
 		b := make([]byte, rng.Intn(7))
